@@ -382,7 +382,7 @@ func c32() {
 	c32health = startHealth()
 	c32ResponseModes(r)
 
-	n := r.Pick(600, 30000)
+	n := r.Pick(1200, 30000)
 	rng := r.Rand("rounds")
 	rounds := make([]c32round, n)
 	for i := range rounds {
